@@ -99,7 +99,8 @@ def _work_gen(job):
                     "why": f"{type(err).__name__}: {err}"[:200]}
         texts, fail, why = _passes(w1)
     try:
-        src_items = None if nested else c03_item.itemise(src)
+        src_items = None if nested or set(feats["bodies"]) & c03_gen.CANONICALISED \
+            else c03_item.itemise(src)
     except c03_item.Unsupported as err:
         raise core.MachineryError(f"generated source {cid} not itemisable: {err}")
     return _case(cid, origin, src_items, texts, fail, why)
